@@ -520,6 +520,11 @@ func (r *Run) returnClass(path *Path) string {
 					if c := r.errExprClass(path, rfn, res[ridx]); c != "" {
 						return c
 					}
+				} else if ok && len(res) == 1 {
+					// the helper itself ended in `return g(…)` with several results: what g returned last
+					if c := r.errExprClass(path, rfn, res[0]); c != "" {
+						return c
+					}
 				}
 				if f, _ := r.calleeOfExpr(ev.Fn, rhs); f != nil {
 					if f == r.M().DataTo {
